@@ -154,10 +154,21 @@ def run(ctx):
                 "point moves, signature/param edits, function delete/dup/id swap, type/libfunc declaration "
                 "delete/dup/reorder/id swap/generic id/declared info, generic-arg value edits incl. sign and magnitude up to "
                 "2^1000, kind/arity edits) + k-point mutants (k=2..4); (class level) Sierra versions, entry-point table edits, "
-                "bytecode limits, program mutants. Quick tier samples per program, thorough enumerates all single-point "
+                "bytecode limits, program mutants; (boundary templates) programs built so that a number sits at / one below / one above "
+                "an arithmetic boundary: types of exactly 2^15-2..2^15+1, 2^16-1..2^16+1, halves and thirds cells (struct doubling "
+                "chains + filler, flat structs, other size-1/size-2 bases), enums / wrappers (Box, Nullable, Snapshot, Uninitialized, "
+                "NonZero, Array, Span) / Const over them, U96LimbsLtGuarantee limb counts at 2^14..2^128 +-1, functions moving such "
+                "values (identity, locals, calls, 2 and 3 parameters, const_as_box) and, generically, EVERY libfunc of the corpus "
+                "that takes a type, instantiated over 12 candidate big types and wrapped in a function synthesised from its real "
+                "signature (with and without a big value carried across it), statement / parameter / enum-variant / struct-member / "
+                "function / declaration counts at 2^15 and 2^16 +-1; each also serialised and pushed through extract_sierra_program "
+                "and from_contract_class; (JSON level) the class files with numbers / strings / shapes at their boundaries. Quick tier samples per program, thorough enumerates all single-point "
                 "mutants of programs up to 300 statements. distinct = hash of the input; non-trivial = the input got past the "
                 "first validation stage (deserialised / registry built / class reached compilation), counted by the harness.",
         "input_distribution": s,
+        "boundary_templates": s.get("boundary_templates", 0),
+        "boundary_templates_applicable": s.get("boundary_templates_applicable", 0),
+        "boundary_template_arithmetic_sites": s.get("boundary_template_sites", []),
         "finding_sites_this_run": len(findings),
         "consistency_failures": len(incons),
         "samples": samples or ["(harness did not run)"],
